@@ -391,3 +391,110 @@ def _replay_c25_release(prop, harness, rec):
         return {"status": "reproduced", "detail": f"crash: {r['stderr_tail'][-200:]}"}
     st = "reproduced" if o["dropped"] != o["stored"] else "not_reproduced"
     return {"status": st, "out": o, "detail": f"{o['stored']} values stored, {o['dropped']} dropped when the local storage was dropped"}
+
+
+@replayer("c21_two_event_loops")
+def _replay_c21_two_loops(prop, harness, rec):
+    """Two real event loops: a task on one loop waits for a socket (its epoll instance registers it), later a task on the
+    OTHER loop waits for the same socket. /proc/self/fdinfo shows which epoll instances hold the socket while it waits."""
+    r = run_case(["two_loops", 6], 180)
+    if "error" in r:
+        return {"status": "unavailable", "detail": r["error"]}
+    o = r["out"]
+    if o is None:
+        return {"status": "unavailable", "detail": f"native case crashed: {r['stderr_tail'][-200:]}"}
+    usable = [t for t in o["trials"] if t["first_thread"] != t["second_thread"] and t["epolls_after_first"]]
+    if not usable:
+        return {"status": "unavailable", "detail": "no trial in which the two tasks ran on different event loops", "out": o}
+    bad = [t for t in usable if set(t["epolls_while_second_waits"]) <= set(t["epolls_after_first"])]
+    if bad:
+        t = bad[0]
+        return {"status": "reproduced", "out": o,
+                "detail": f"task on {t['second_thread']} waits for a socket that only epoll instance(s) {t['epolls_while_second_waits']} "
+                          f"(registered earlier through {t['first_thread']}) hold; woken after {t['second_latency_us']}us for data sent after 2000us"}
+    return {"status": "not_reproduced", "out": o, "detail": "the waiting loop's own epoll instance holds the socket in every usable trial"}
+
+
+# ---------------------------------------------------------------- C19 socket time limits
+def _sockopt_oracle(r):
+    """Violations visible in a native `sockopt` history: abort, failing setsockopt the kernel accepts, applied limit != kernel value."""
+    if r.get("timed_out"):
+        return ["the history did not finish"]
+    if r["rc"] != 0 or r["out"] is None:
+        last = [l for l in r["stderr_tail"].splitlines() if l.startswith("op ")]
+        return [f"process aborted inside a hooked call (rc={r['rc']}; {r['stderr_tail'][-300:].strip().splitlines()[-1] if r['stderr_tail'].strip() else ''}) {last[-1] if last else ''}"]
+    bad = []
+    for o in r["out"]["ops"]:
+        if "applied" in o and o["applied"] != o["kernel"]:
+            bad.append(f"{o['op']}: hooked I/O applies {o['applied']} ns but the socket's option is {o['kernel']} ns")
+    return bad
+
+
+def _tv_arg(sec, usec):
+    return f"{sec}.{usec}"
+
+
+@replayer("c19_step_")
+def _replay_c19_step(prop, harness, rec):
+    v = [_int(rec, i) for i in range(15)]
+    if any(x is None for x in v):
+        return {"status": "unavailable", "detail": "could not decode the counterexample"}
+    tvs = [[(v[0], v[1]), (v[2], v[3])], [(v[4], v[5]), (v[6], v[7])]]
+    cached = [[v[8] & 1, v[9] & 1], [v[10] & 1, v[11] & 1]]
+    slot = 0 if (v[12] & 1) else 1
+    op_tv = (v[13], v[14])
+    ops = []
+    for i in (0, 1):
+        ops += [f"{i}R{_tv_arg(*tvs[i][0])}", f"{i}S{_tv_arg(*tvs[i][1])}"]
+    for i in (0, 1):
+        if cached[i][0]:
+            ops.append(f"{i}r")
+        if cached[i][1]:
+            ops.append(f"{i}s")
+    kind = {"set_rcvtimeo": f"{slot}R{_tv_arg(*op_tv)}", "set_sndtimeo": f"{slot}S{_tv_arg(*op_tv)}",
+            "query_recv_limit": f"{slot}r", "query_send_limit": f"{slot}s", "close_and_reuse": f"{slot}c"}
+    for k, o in kind.items():
+        if harness.endswith(k):
+            ops.append(o)
+    ops += ["0r", "0s", "1r", "1s"]
+    r = run_case(["sockopt"] + ops, 30)
+    if "error" in r:
+        return {"status": "unavailable", "detail": r["error"]}
+    bad = _sockopt_oracle(r)
+    return {"status": "reproduced" if bad else "not_reproduced", "case": ["sockopt"] + ops,
+            "detail": "; ".join(bad) or "native history on real sockets satisfies the oracle", "out": r["out"]}
+
+
+@replayer("c19_conversion")
+def _replay_c19_conv(prop, harness, rec):
+    sec, usec = _int(rec, 0), _int(rec, 1)
+    if sec is None or usec is None:
+        return {"status": "unavailable", "detail": "could not decode the counterexample"}
+    # the real kernel only stores tv_usec < 10^6 and rounds to its tick; replay the value class on a real socket
+    usec = usec % 1_000_000
+    tried = []
+    for s_, u_ in ((sec, usec), (0, usec), (sec, 0)):
+        r = run_case(["sockopt", f"0R{_tv_arg(s_, u_)}", "0r", f"0S{_tv_arg(s_, u_)}", "0s"], 30)
+        if "error" in r:
+            return {"status": "unavailable", "detail": r["error"]}
+        bad = _sockopt_oracle(r)
+        tried.append({"tv": [s_, u_], "bad": bad})
+        if bad:
+            return {"status": "reproduced", "detail": "; ".join(bad), "tried": tried}
+    return {"status": "unavailable", "detail": "the conversion error of the counterexample does not show for the values the real kernel stores "
+            "(it saturates/rounds large values); solver counterexample only", "tried": tried}
+
+
+@replayer("c19_history")
+def _replay_c19_history(prop, harness, rec):
+    # fixed battery of the histories the property names (the symbolic history's exact values are not needed to show an abort)
+    tried = []
+    for ops in (["0R1.5", "0R2.0", "0r"], ["0r", "0R1.500000", "0r", "1r"], ["0R1.5", "0r", "0c", "0r", "0s"], ["0S2.0", "0s", "0r", "1s"]):
+        r = run_case(["sockopt"] + ops, 30)
+        if "error" in r:
+            return {"status": "unavailable", "detail": r["error"]}
+        bad = _sockopt_oracle(r)
+        tried.append({"ops": ops, "bad": bad})
+        if bad:
+            return {"status": "reproduced", "detail": "; ".join(bad), "tried": tried}
+    return {"status": "unavailable", "detail": "the fixed native histories pass; solver counterexample only", "tried": tried}
